@@ -4,6 +4,7 @@ import EV.Drv.Merkle
 import EV.Drv.Peers
 import EV.Drv.Reorg
 import EV.Drv.Daemon
+import EV.Drv.TxCodec
 
 /-!
 `evdrv <suite>`: reads one operation per line on stdin, applies it to the Lean model of that
@@ -37,4 +38,6 @@ def main (args : List String) : IO UInt32 := do
   | ["peers"] => Drv.loop stdin stdout Drv.PeersD.stepLine (); return 0
   | ["reorgrange"] => Drv.loop stdin stdout Drv.ReorgD.stepLine (); return 0
   | ["daemon"] => Drv.loop stdin stdout Drv.DaemonD.stepLine Drv.DaemonD.init; return 0
+  | ["txcodec"] => Drv.loop stdin stdout (Drv.TxCodecD.stepLine 0) Drv.TxCodecD.init; return 0
+  | ["txcodec-orig"] => Drv.loop stdin stdout (Drv.TxCodecD.stepLine 1) Drv.TxCodecD.init; return 0
   | _ => IO.eprintln "usage: evdrv <suite>"; return 2
